@@ -1,14 +1,17 @@
 #!/bin/bash
-# usage: tools/mutant_matrix.sh [check-override]  — runs every seeded change under /verif/seeded against the
-# quick check of the property it was written for, in a scratch worktree of /repo (the working tree of /repo and
-# /verif/evidence are not touched). Writes /verif/seeded/RESULTS.md.
+# usage: tools/mutant_matrix.sh [name-regexp]  — runs every seeded change under /verif/seeded (or those whose
+# directory name matches the regexp) against the quick check of the property it was written for and the checks
+# named in its also_checks file, in a scratch worktree of /repo (the working tree of /repo and /verif/evidence are
+# not touched). Writes /verif/seeded/RESULTS.md; with a regexp the rows of the matching changes are replaced.
 set -u
 V=/verif
 OUT=/var/tmp/mm.$$; mkdir -p "$OUT"
 RES="$V/seeded/RESULTS.md"
 echo "| seeded change | property | check run | result | first violation reported |" > "$RES.tmp"
 echo "|---|---|---|---|---|" >> "$RES.tmp"
+FILTER="${1:-.}"
 for d in $V/seeded/*/; do
+  echo "$(basename $d)" | grep -Eq "$FILTER" || continue
   n=$(basename "$d"); id=${n%%-*}
   [ -f "$d/patch.diff" ] || continue
   checks="$id"
@@ -28,5 +31,15 @@ for d in $V/seeded/*/; do
     git -C /repo worktree remove --force "$WT"
   done
 done
+if [ "$FILTER" != "." ] && [ -f "$RES" ]; then
+  python3 - "$RES" "$RES.tmp" <<'PY'
+import sys,re
+old=open(sys.argv[1]).read().split('\n'); new=open(sys.argv[2]).read().split('\n')
+names={l.split('|')[1].strip() for l in new[2:] if l.startswith('|')}
+rows=[l for l in old[2:] if l.startswith('|') and l.split('|')[1].strip() not in names]+[l for l in new[2:] if l.startswith('|')]
+key=lambda l:(l.split('|')[1].strip().split('-')[0], int(l.split('|')[1].strip().split('-m')[1]), l.split('|')[3].strip())
+open(sys.argv[2],'w').write('\n'.join(old[:2]+sorted(rows,key=key))+'\n')
+PY
+fi
 mv "$RES.tmp" "$RES"; rm -rf "$OUT"
 cat "$RES"
